@@ -1405,6 +1405,8 @@ class C15(ValProp):
                 out.append(F('prop', 'len()', py.get('p.len'), str(val_size(case[2]))))
         if py.get('p.eq') != '111':
             out.append(F('prop', '==, !=, hash of equal values', py.get('p.eq'), '111'))
+        if 'p.seqmixin' in py and set(py['p.seqmixin']) - {'1'}:
+            out.append(F('prop', 'reversed() / in / index() / count() disagree with indexing', py['p.seqmixin'], 'all 1'))
         if 'p.slices' in py and set(py['p.slices']) - {'1'}:
             out.append(F('prop', 'in-range slices [0:0],[0:n],[0:1],[n:n],[n/2:n],[0:n/2],[1:n-1] disagree with indexing', py['p.slices'], 'all 1'))
         if mo['i.read'] != v:
